@@ -167,7 +167,7 @@ inductive R (α : Type)
   | ok (a : α)
   | err (e : Err)
   | panic (s : PanicSite)
-deriving Repr
+deriving DecidableEq, Repr
 
 abbrev Outcome := R Unit
 
